@@ -222,6 +222,7 @@ type gen struct {
 	rows [][]Arg // current table contents (from the last dump), column order
 	args []Arg
 	lit  bool // literals only (no `?`)
+	tx   bool // multi-connection schedules: more locking reads
 }
 
 var strPool = []string{"a", "b", "c", "ab", "abc", "A", "1", "2", "10", "7", "1.0", " 3", "x1", "", "a b", "été", "%", "a_c", "3 ", "1.5", "-2", "9x", "zz", "1e1", "07", "+4", ".5"}
@@ -362,7 +363,7 @@ var cmpOps = []string{"=", "=", "=", "<>", "!=", "<", "<=", ">", ">="}
 
 func (g *gen) pred(depth int) string {
 	r := g.r
-	if r.Chance(1, 90) { // outside the Coq grammar: counted as skipped by the tie
+	if !g.tx && r.Chance(1, 90) { // outside the Coq grammar: counted as skipped by the tie
 		return "LENGTH(" + g.s.Cols[g.anyCol()].Name + ") > 1"
 	}
 	k := r.Intn(14)
@@ -575,7 +576,7 @@ func (g *gen) selectStmt() string {
 		fields = "COUNT(*)"
 	}
 	q := "SELECT " + fields + " FROM " + g.s.Table + g.where(80) + g.orderBy(40) + g.limitClause(30, true)
-	if r.Chance(15, 100) {
+	if r.Chance(15, 100) || (g.tx && r.Chance(1, 3)) {
 		q += " FOR UPDATE"
 	}
 	return q
